@@ -87,6 +87,10 @@ def cases(rng, quick):
                 lines.append("Zgate(%s) | 0" % (fam[0] % q))
                 lines.append("Zgate(%s) | 0" % (fam[1] % q))
                 lines.append("Zgate(a=%s, b=%s) | 1" % (fam[1] % q, fam[0] % q))
+        if rng.random() < 0.4:
+            a_, b_, c_ = rng.sample([0, 1, 2, 4, 5, 7, 10, 12], 3)
+            for form in rng.sample(["q%d - q%d / q%d", "q%d * (q%d + q%d)", "2 * q%d * q%d + q%d ** 2", "(q%d - q%d) / (q%d + 3)", "q%d ** 2 - (q%d - 1) * q%d"], 2):
+                lines.append(rng.choice(["Zgate(%s) | 0", "Zgate(0.5, k=%s) | 1"]) % (form % (a_, b_, c_)))
         lines.append("Xgate(0.5, x, n * 2, s=\"a\") | 0")       # arguments without registers stay plain
         if 0.25 <= ctx < 0.4:
             lines.append("Rgate(p1) | 0")
